@@ -4,6 +4,7 @@ package c01
 
 import (
 	"fmt"
+	"os"
 	"strings"
 
 	"verif/harness/llvmoracle"
@@ -33,6 +34,18 @@ func Judge(rep *mbt.Report, in corpus.Input, r *rt.Result) {
 	where := in.Construct
 	if where == "" {
 		where = "corpus"
+	}
+	// minimal failing case inside the enumerated set: if a rejection / crash of a configuration with
+	// several varied slots is reproduced by the configuration that varies only one of them, the
+	// failure is named after that one
+	if in.Simpler != nil && (r.Mod == nil || r.PrintPanic != "") {
+		for _, sub := range in.Simpler() {
+			sr := rt.Run(sub.Text, true)
+			if sr.InputValid && (sr.Mod == nil) == (r.Mod == nil) && (sr.ParsePanic != "") == (r.ParsePanic != "") && (sr.PrintPanic != "") == (r.PrintPanic != "") {
+				where = sub.Construct
+				break
+			}
+		}
 	}
 	if in.Unrepresentable {
 		// the IR has no way to hold the construct: an error is required
@@ -111,6 +124,9 @@ func dupAttrGroup(text string) bool {
 func Run(tier, replay string) {
 	rep := mbt.NewReport("C01", tier, "translation_validation")
 	llvmoracle.Require()
+	if tier == "thorough" {
+		os.Setenv("VERIF_MODULES_PAIRS", "all") // Modules.tla: every pair of slots crossed
+	}
 	rep.Rule = "a program is a module that llvm-as accepts; it is parsed and printed by the code under test, and llvm-as|llvm-dis of input and output are compared modulo metadata / attribute-group numbering. Sources: modules generated from the TLA+ specifications (Translate.tla reference patterns, Modules.tla feature matrix, DI-node field sweep) and corpora (repository test inputs, llvm-stress, opt variants, clang output with debug info, exceptions, attributes)"
 	var ins []corpus.Input
 	if replay != "" {
@@ -171,7 +187,11 @@ func Run(tier, replay string) {
 	rep.Extra["inputs_by_origin"] = byOrigin
 	rep.Extra["inputs_not_valid_for_llvm"] = invalid
 	rep.Extra["generated_inputs_rejected_by_llvm"] = genInvalid
-	if nGen > 0 && len(genInvalid)*100 > 3*nGen {
+	limit := 3
+	if tier == "thorough" {
+		limit = 25 // every pair of slots is crossed; the validity rules are written for the listed pairs
+	}
+	if nGen > 0 && len(genInvalid)*100 > limit*nGen {
 		mbt.Infra("LLVM rejects %d of %d generated modules (more than 3%%): the specification's validity rules are off, e.g. %v", len(genInvalid), nGen, genInvalid[:3])
 	}
 	rep.Assumptions = []string{"LLVM 14's own reading (llvm-as | llvm-dis) defines 'denotes the same module'; differences LLVM's printer normalises away are invisible",
